@@ -35,4 +35,10 @@ def check(model, tier):
     commute.r04_3_moved_stay_wellformed(ctx)
     commute.r04_4_set_formulas(ctx)
     expressions.r13_4_required_columns(ctx, rule="R04.5")
+    from ..rules import classlevel as _classlevel
+
+    _classlevel.r_commutator_messages(ctx, "R03.M1")
+    from ..rules.foundation import run_foundation
+
+    run_foundation(ctx, "03")
     return run
